@@ -180,6 +180,66 @@ func c08Object(c *mon.Ctx, x psatoken.IClaims, k keys.Pair, sig string, det map[
 	}
 }
 
+// c08NeverThrough drives every object gate with a claims object whose
+// Validate() does not return nil - it returns an error or PANICS (typed nil
+// claims, a careless extension validator). A gate may return an error or let
+// the panic propagate; it must not report success, hand out bytes, invoke the
+// signer or attach the claims.
+func c08NeverThrough(c *mon.Ctx, x psatoken.IClaims, k keys.Pair, cls, sig string) {
+	vstate := "error"
+	if pn, _, _ := mon.Guard(func() {
+		if x.Validate() == nil {
+			vstate = "nil"
+		}
+	}); pn {
+		vstate = "panics"
+	}
+	if vstate == "nil" {
+		c.Violation("harness/never-through-fixture", "fixture validates: "+cls, nil)
+		return
+	}
+	c.Count("objects:validate-" + vstate + ":" + cls)
+	bad := func(gate, what string) {
+		c.Violation("C08/"+gate+"/let-invalid-through:validate-"+vstate, what+" (Validate() "+vstate+"; "+cls+")", map[string]any{"sig": sig, "class": cls})
+	}
+	outcome := func(name string, fn func() bool) {
+		through := false
+		pn, _, _ := mon.Guard(func() { through = fn() })
+		c.Eval()
+		switch {
+		case pn:
+			c.Count("gate-propagated-panic:" + name)
+		case through:
+			bad(name, name+" reported success")
+		default:
+			c.Count("gate-refused:" + name)
+		}
+	}
+	outcome("SetClaims", func() bool {
+		prev := psatoken.IClaims(&psatoken.P1Claims{})
+		e := &psatoken.Evidence{Claims: prev}
+		err := e.SetClaims(x)
+		return err == nil || e.Claims != prev
+	})
+	outcome("ValidateAndEncodeClaimsToCBOR", func() bool {
+		b, err := psatoken.ValidateAndEncodeClaimsToCBOR(x)
+		return err == nil || len(b) != 0
+	})
+	outcome("ValidateAndEncodeClaimsToJSON", func() bool {
+		b, err := psatoken.ValidateAndEncodeClaimsToJSON(x)
+		return err == nil || len(b) != 0
+	})
+	calls := 0
+	outcome("ValidateAndSign", func() bool {
+		e := &psatoken.Evidence{Claims: x}
+		tok, err := e.ValidateAndSign(faultSigner{alg: k.Alg, mode: "delegate", inner: k.Signer, calls: &calls})
+		return err == nil || len(tok) != 0
+	})
+	if calls != 0 {
+		bad("ValidateAndSign", "the signer was invoked")
+	}
+}
+
 // c08DecodeCBOR drives the CBOR decode gates with one byte string.
 func c08DecodeCBOR(c *mon.Ctx, wire []byte, sig string) (outcome string) {
 	nx, nerr := psatoken.DecodeClaimsFromCBOR(wire)
@@ -332,12 +392,7 @@ func invalidateInPlace(g *model.Gen, y psatoken.IClaims) string {
 		}
 		return "ImplID = 31 bytes"
 	case 3:
-		v := uint16(0x7000)
-		if p1 != nil {
-			p1.SecurityLifeCycle = &v
-		} else {
-			p2.SecurityLifeCycle = &v
-		}
+		obs.SetNumField(y, "SecurityLifeCycle", 0x7000)
 		return "SecurityLifeCycle = 0x7000"
 	case 4:
 		if scs, err := y.GetSoftwareComponents(); err == nil && len(scs) > 0 {
@@ -360,7 +415,7 @@ func invalidateInPlace(g *model.Gen, y psatoken.IClaims) string {
 }
 
 func runC08(c *mon.Ctx) {
-	c.Rule("every claims-set class of C01 (valid, each single / double / triple rule violation, random products; both profiles; a registered P2-based extension with its own extra rule (negative timestamp) so that a gate that runs only the generic rules is visible) built by direct field assignment, plus objects whose only defect is a profile claim that does not match the implementing type (canonical name unset / foreign; an extension object carrying its base profile's name - not expressible on the wire), plus a second, stricter registered extension whose own rules are reported with the library's ignorable sentinels (mandatory boot seed -> missing-optional, forbidden VSI -> not-in-profile); pushed through the object-side gates (also: attached/encoded while valid, then made invalid IN PLACE through a clearing setter, an exported field or a retained component pointer, and pushed through the gates again) SetClaims, ValidateAndEncodeClaimsToCBOR, ValidateAndEncodeClaimsToJSON, ValidateAndSign (7 algorithms, signer wrapped to count invocations); extension-profile tokens (CBOR, JSON, COSE) that break only the extension's own rule; the wire tokens of C04 (valid / rule-breaking / type-breaking / open encodings), JSON documents of valid and rule-breaking sets, and COSE envelopes (tokens signed with the non-validating Sign, and C04 wire tokens wrapped + signed by the harness) pushed through DecodeAndValidateClaimsFromCBOR, DecodeAndValidateClaimsFromJSON, the deprecated DecodeJSONClaims, DecodeAndValidateEvidenceFromCOSE. Oracle: the library's own Validate() on the same object / on the non-validating sibling's result: Validate fails => the gate returns an error, no bytes, no object, attaches nothing (and never invokes the signer); Validate succeeds => the gate's result equals the non-validating sibling's (bytes, payload+protected header, claims observation, Verify). distinct_nontrivial = distinct (gate family, profile, violated-claim classes) signatures")
+	c.Rule("every claims-set class of C01 (valid, each single / double / triple rule violation, random products; both profiles; a registered P2-based extension with its own extra rule (negative timestamp) so that a gate that runs only the generic rules is visible) built by direct field assignment, plus objects whose only defect is a profile claim that does not match the implementing type (canonical name unset / foreign; an extension object carrying its base profile's name - not expressible on the wire), plus a second, stricter registered extension whose own rules are reported with the library's ignorable sentinels (mandatory boot seed -> missing-optional, forbidden VSI -> not-in-profile); pushed through the object-side gates (also: attached/encoded while valid, then made invalid IN PLACE through a clearing setter, an exported field or a retained component pointer, and pushed through the gates again) SetClaims, ValidateAndEncodeClaimsToCBOR, ValidateAndEncodeClaimsToJSON, ValidateAndSign (7 algorithms, signer wrapped to count invocations); extension-profile tokens (CBOR, JSON, COSE) that break only the extension's own rule; the wire tokens of C04 (valid / rule-breaking / type-breaking / open encodings), JSON documents of valid and rule-breaking sets, and COSE envelopes (tokens signed with the non-validating Sign, and C04 wire tokens wrapped + signed by the harness) pushed through DecodeAndValidateClaimsFromCBOR, DecodeAndValidateClaimsFromJSON, the deprecated DecodeJSONClaims, DecodeAndValidateEvidenceFromCOSE. Oracle: the library's own Validate() on the same object / on the non-validating sibling's result: Validate fails => the gate returns an error, no bytes, no object, attaches nothing (and never invokes the signer); Validate succeeds => the gate's result equals the non-validating sibling's (bytes, payload+protected header, claims observation, Verify). Also claims whose Validate() PANICS (typed nil *P1Claims / *P2Claims; a registered extension with a careless validator, as object and as CBOR / JSON / COSE token lacking the extension claim; positive control with the claim): a gate may return an error or let the panic propagate but must never report success, hand out bytes, invoke the signer or attach; and VALID claims of an extension profile that was never registered go through every object gate exactly like through the non-validating sibling. distinct_nontrivial = distinct (gate family, profile, violated-claim classes) signatures")
 	if err := extprof.Register(extprof.ExtP2Name, extprof.ExtP1Name, extprof.ExtStrictName); err != nil {
 		c.Violation("harness/register", err.Error(), nil)
 		return
@@ -594,6 +649,103 @@ func runC08(c *mon.Ctx) {
 			}
 		}
 	}
+	// ---- claims whose Validate() PANICS (typed nil pointers; a registered
+	// extension with a careless validator fed a token lacking its claim) and
+	// valid claims of an extension that was never registered (signing side only)
+	if err := extprof.Register(extprof.ExtFragileName); err != nil {
+		c.Violation("harness/register", err.Error(), nil)
+		return
+	}
+	for i := 0; i < c.N(3000, 60000); i++ {
+		k := ks[i%7]
+		switch i % 4 {
+		case 0:
+			var x psatoken.IClaims = (*psatoken.P2Claims)(nil)
+			if i%8 == 0 {
+				x = (*psatoken.P1Claims)(nil)
+			}
+			c08NeverThrough(c, x, k, "typed-nil-claims", "object|typed-nil")
+			c.Sig("object|typed-nil")
+		case 1, 2:
+			a := g.Valid(2)
+			a.Canon, a.Profile = extprof.ExtFragileName, model.SP(extprof.ExtFragileName)
+			withSerial := i%4 == 2
+			cls := "fragile-extension-claim-absent"
+			x := extprof.NewExtFragileClaims()
+			if err := obs.SetterApply(x, a); err != nil {
+				c.Violation("harness/fragile-fixture", err.Error(), nil)
+				continue
+			}
+			w := a.WireCBOR()
+			ms := a.JSONMembers()
+			if withSerial {
+				cls = "fragile-extension-valid"
+				x.(*extprof.ExtFragileClaims).Serial = model.SP("SN-1")
+				w.Items = append(w.Items, refcbor.I(-75400), refcbor.Tstr("SN-1"))
+				ms = append(ms, model.Member{Name: "x-serial", Value: `"SN-1"`})
+			}
+			c.Sig("object|" + cls)
+			if withSerial {
+				// positive control: with its claim present this profile passes every gate
+				c08Invalidate = nil
+				guard("object gates (fragile extension, valid)", nil, func() { c08Object(c, x, k, "object|"+cls, map[string]any{"cls": cls}) })
+				wire := refcbor.Encode(w)
+				guard("cbor decode gates (fragile extension, valid)", map[string]any{"wire_hex": mon.Hex(wire)}, func() { c.Count("cbor-" + cls + ":" + c08DecodeCBOR(c, wire, "cbor|"+cls)) })
+				continue
+			}
+			c08NeverThrough(c, x, k, cls, "object|"+cls)
+			wire, doc := refcbor.Encode(w), model.MembersJSON(ms)
+			for _, gate := range []string{"DecodeAndValidateClaimsFromCBOR", "DecodeAndValidateClaimsFromJSON", "DecodeAndValidateEvidenceFromCOSE"} {
+				through := false
+				pn, _, _ := mon.Guard(func() {
+					switch gate {
+					case "DecodeAndValidateClaimsFromCBOR":
+						y, err := psatoken.DecodeAndValidateClaimsFromCBOR(wire)
+						through = err == nil || !isNilClaims(y)
+					case "DecodeAndValidateClaimsFromJSON":
+						y, err := psatoken.DecodeAndValidateClaimsFromJSON(doc)
+						through = err == nil || !isNilClaims(y)
+					default:
+						prot := refcbor.Encode(refcbor.MapOf(refcbor.I(1), refcbor.I(coseAlgID[k.Name])))
+						sg, serr := k.Signer.Sign(rand.Reader, refcose.SigStructure(prot, wire))
+						if serr != nil {
+							return
+						}
+						ev, err := psatoken.DecodeAndValidateEvidenceFromCOSE(sign1Bytes(prot, nil, wire, sg))
+						through = err == nil || ev != nil
+					}
+				})
+				c.Eval()
+				switch {
+				case pn:
+					c.Count("gate-propagated-panic:" + gate)
+				case through:
+					c.Violation("C08/"+gate+"/let-invalid-through:validate-panics", gate+" reported success for a token whose claims' Validate() panics ("+cls+")", map[string]any{"wire_hex": mon.Hex(wire), "json": string(doc)})
+				default:
+					c.Count("gate-refused:" + gate)
+				}
+			}
+		default:
+			name := fmt.Sprintf("http://example.com/signing-side-only/%d", i%3)
+			a := g.Valid(2)
+			a.Canon, a.Profile = name, model.SP(name)
+			x := extprof.NumberedProfile{Name: name, Base: 2}.GetClaims() // never registered
+			if err := obs.SetterApply(x, a); err != nil {
+				c.Violation("harness/unregistered-fixture", err.Error(), nil)
+				continue
+			}
+			if x.Validate() != nil {
+				c.Violation("harness/unregistered-fixture", "does not validate", nil)
+				continue
+			}
+			c.Count("objects:valid-unregistered-extension")
+			c.Sig("object|valid-unregistered-extension")
+			c08Invalidate = nil
+			guard("object gates (unregistered extension)", nil, func() {
+				c08Object(c, x, k, "object|valid-unregistered-extension", map[string]any{"profile": name, "registered": false})
+			})
+		}
+	}
 	// ---- JSON decode gates
 	j := c.N(60000, 1500000)
 	for i := 0; i < j; i++ {
@@ -659,6 +811,9 @@ func runC08(c *mon.Ctx) {
 		guard("cose decode gates", map[string]any{"token_hex": mon.Hex(tok)}, func() { c.Count("cose:" + c08DecodeCOSE(c, tok, k.Pub, sig)) })
 	}
 	c.Floor("objects:valid", 1000)
+	c.Floor("objects:validate-panics:typed-nil-claims", 100)
+	c.Floor("objects:validate-panics:fragile-extension-claim-absent", 100)
+	c.Floor("objects:valid-unregistered-extension", 100)
 	c.Floor("objects:invalid", 1000)
 	c.Floor("extension-rule-only-invalid", 50)
 	c.Floor("invalidated-after-attach", 500)
